@@ -2,7 +2,7 @@
    pre-state), and judges the implementation's outputs with the specification oracles. *)
 From Coq Require Import Ascii String.
 From WF Require Import Base.Bytes Base.Utf8 Spec.Route Spec.Walk Spec.Grammar Spec.Oracles Spec.Registry Spec.Inv.
-From WF Require Import Model.Tree Model.Parser Model.Ops Model.Router Model.Display Model.Render Model.Constraints Model.Arcs.
+From WF Require Import Model.Tree Model.Parser Model.Ops Model.Router Model.Display Model.Render Model.Constraints Model.Arcs Model.SearchC.
 From WF Require Import Check.Tokens Check.Events.
 
 Inductive fkind :=
@@ -14,7 +14,7 @@ Inductive fkind :=
 | FWalkGenuine | FWalkMissed | FWalkPriority | FGreedy
 | FSpecInsert | FSpecDelete | FSpecConstraint
 | FNoop | FRoundtrip | FInterfere | FNotRouted | FSame | FDumpOf
-| FBuiltin | FOci | FOciModel | FOciName | FUnknownRouter | FArcs | FSplitChar.
+| FBuiltin | FOci | FOciModel | FOciName | FUnknownRouter | FArcs | FSplitChar | FIndexSearch.
 
 Definition finding := (fkind * list bytes)%type.
 
@@ -369,6 +369,8 @@ Definition check_search (x : rst) (path : bytes) (r : sres) : list finding :=
   let wres := W (cfun_of (rs_cons x)) (live_routes (rs_live x)) path in
   let wr := sres_of wres in
   fl (sres_eqb m r) FOpsSearch [path]
+  (* the index-level search (Model/SearchC.v) on the real tree: same answer, no out-of-range index, slice or unwrap *)
+  ++ fl (match search_c (rs_cons x) (rs_dump x) path with Ret mc => sres_eqb (sres_of mc) r | _ => false end) FIndexSearch [path]
   ++ (if sres_eqb wr r then [] else
       match r with
       | Some (t, e, d, ps) =>
